@@ -233,3 +233,27 @@ def disturb():
         raise
     except Exception:
         pass
+
+
+def check_twice(runner, arrays, diff_idx, name, rows):
+    """two backward calls over ONE graph with different upstream gradients: leaves accumulate J^T g1 + J^T g2 - what the forward
+    saved for backward must survive the first backward"""
+    sg = harness.load()
+    rg = [i in diff_idx for i in range(len(arrays))]
+    out, ts = runner(arrays, rg)
+    g1 = values.dense_g(out.shape); g2 = values.dense_g(out.shape, salt=5) * 0.5 - 0.25
+    dt = out.dtype if out.dtype.kind == "f" else np.float64
+    try:
+        out.backward(sg.Tensor(np.asarray(g1, dtype=dt)))
+        out.backward(sg.Tensor(np.asarray(g2, dtype=dt)))
+    except harness.HarnessError:
+        raise
+    except Exception as e:
+        return [{"kind": f"{name}:second-backward-raised", "detail": f"{type(e).__name__}: {str(e)[:80]}"}]
+    for k in diff_idx:
+        exp = rows[k].T @ (np.asarray(g1, dtype=np.float64) + np.asarray(g2, dtype=np.float64)).reshape(-1)
+        gr = ts[k].grad
+        if gr is None or not fd.close(np.asarray(gr.data, dtype=np.float64).reshape(-1), exp, 1e-9, 1e-11):
+            return [{"kind": f"{name}:second-backward-differs", "detail": f"operand {k}: after two backward calls over the same graph the gradient is not "
+                     "J^T g1 + J^T g2 (state saved by the forward was changed by the first backward)"}]
+    return []
